@@ -2,7 +2,7 @@
 import ast
 
 from ..model import AnalysisError, dotted, unparse
-from ..util import sym_env, sym_resolve, FACTS, FACTS_I, U, enum_paths, walk_no_nested, is_yield_call, Yields
+from ..util import resolved_text, sym_env, sym_resolve, FACTS, FACTS_I, U, enum_paths, walk_no_nested, is_yield_call, Yields
 from ..paths import call_attr, call_name
 
 H = 'scales/loadbalancer/heap.py'
@@ -411,52 +411,125 @@ def r5(ctx):
   ok = ('%s[%s],%s[%s]=(%s[%s],%s[%s])' % (h, i, h, j, h, j, h, i) in t or '%s[%s],%s[%s]=%s[%s],%s[%s]' % (h, i, h, j, h, j, h, i) in t) and \
     '%s[%s].index=%s' % (h, i, i) in t and '%s[%s].index=%s' % (h, j, j) in t
   ctx.ob('C03.R5', sw, 'Swap exchanges both slots and updates both index fields', ok, 'Swap body changed', 'node.index must always be the node position: repairs and removal start from it')
+  sift_rules(ctx, why)
+
+
+def _lowered_body(f):
+  """Copy of the function body with every conditional expression assignment/return lowered to if statements, so that
+  the path enumerator sees the choice (the reference tree writes the child choice of FixDown as a conditional expression)."""
+  import copy
+  from ..normalize import lower_new_ifexps
+  node = copy.deepcopy(f.node)
+  lower_new_ifexps(node, set(), {})
+  return node.body
+
+
+def _resolved_closure(ev, k, i):
+  """idiom closure of the branch facts before event k, with local aliases resolved and index expressions normalised"""
+  from ..util import equiv_facts
+  out = set()
+  for idx, e in enumerate(ev[:k]):
+    if e.kind != 'cond':
+      continue
+    node = sym_resolve(e.node, sym_env(ev, idx))
+    for c_, t_ in equiv_facts(node, bool(e.info)):
+      out.add((_norm_idx(c_, i), t_))
+    for c_, t_ in FACTS([e]):
+      out.add((_norm_idx(c_, i), t_))
+  return out
+
+
+def _after_step(ev, k, i):
+  """index just after the first rebinding of the walk variable i that follows the swap at event k"""
+  for idx in range(k + 1, len(ev)):
+    e = ev[idx]
+    if e.kind == 'stmt' and ((isinstance(e.node, ast.Assign) and any(U(t) == i for t in e.node.targets)) or
+                             (isinstance(e.node, ast.AugAssign) and U(e.node.target) == i)):
+      return idx + 1
+  return k + 1
+
+
+def _norm_idx(text, i):
+  """canonical spelling of index expressions over the loop variable i: parent P, left L, right R"""
+  t = text.replace(' ', '')
+  for a, b in (('%s//2' % i, 'P'), ('%s>>1' % i, 'P'), ('int(%s/2)' % i, 'P'),
+               ('2*%s+1' % i, 'R'), ('%s*2+1' % i, 'R'), ('(%s<<1)+1' % i, 'R'), ('%s<<1|1' % i, 'R'),
+               ('2*%s' % i, 'L'), ('%s*2' % i, 'L'), ('%s<<1' % i, 'L')):
+    t = t.replace(a, b)
+  return t
+
+
+def sift_rules(ctx, why):
+  """FixUp / FixDown decided on the paths of one step: which comparison licenses a swap, with what, and where the walk continues.
+  Index expressions are resolved through local assignments and normalised (parent P = i//2, children L = 2i, R = 2i+1)."""
+  prog = ctx.prog
+  # ---- FixUp: a swap happens only under  i != 1  and  heap[i] < heap[P];  it swaps i with P and continues from P
   fu = prog.func(H, 'Heap.FixUp')
   h, i = fu.params
-  t = U(fu.node).replace(' ', '')
-  parents = ['%s//2' % i, '%s>>1' % i, 'int(%s/2)' % i]
-  P = next((p for p in parents if p in t), None)
-  ok = P is not None
-  if ok:
-    cmp_ok = '%s[%s]<%s[%s]' % (h, i, h, P) in t or '%s[%s]>%s[%s]' % (h, P, h, i) in t
-    stop_ok = '%s!=1' % i in t or '%s>1' % i in t
-    swap_ok = 'Heap.Swap(%s,%s,%s)' % (h, i, P) in t or 'Heap.Swap(%s,%s,%s)' % (h, P, i) in t
-    step_ok = '%s//=2' % i in t or '%s=%s' % (i, P) in t or '%s>>=1' % i in t or 'Heap.FixUp(%s,%s)' % (h, P) in t
-    ok = cmp_ok and stop_ok and swap_ok and step_ok
-    what = 'compare child<parent=%s stop-at-root=%s swap=%s step-to-parent=%s' % (cmp_ok, stop_ok, swap_ok, step_ok)
-  else:
-    what = 'parent index expression not recognised'
-  ctx.ob('C03.R5', fu, 'FixUp: while i != 1 and heap[i] < heap[i//2]: swap, continue from the parent', ok, what, why)
+  n_sw = 0
+  okf = True
+  whatf = ''
+  for ev, ex in enum_paths(ctx, fu, body=_lowered_body(fu), unroll=2):
+    sw = [k for k, e in enumerate(ev) if e.kind == 'call' and call_name(e.node) == 'Heap.Swap']
+    if not sw:
+      continue
+    k = sw[0]
+    n_sw += 1
+    conds = [(_norm_idx(resolved_text(ev, j_, e.node), i), bool(e.info)) for j_, e in enumerate(ev[:k]) if e.kind == 'cond']
+    closure = _resolved_closure(ev, k, i)
+    args = [_norm_idx(resolved_text(ev, k, a), i) for a in ev[k].node.args]
+    not_root = ('%s!=1' % i, True) in closure or ('%s>1' % i, True) in closure or ('%s==1' % i, False) in closure
+    smaller = ('%s[%s]<%s[P]' % (h, i, h), True) in closure or ('%s[P]>%s[%s]' % (h, h, i), True) in closure
+    swap_ok = args in ([h, i, 'P'], [h, 'P', i])
+    # where the walk continues: the value of i after the swap on this path
+    after = _norm_idx(resolved_text(ev, _after_step(ev, k, i), ast.Name(id=i, ctx=ast.Load())), i)
+    nxt = [e for e in ev[k:] if e.kind == 'call' and call_name(e.node) == 'Heap.FixUp']
+    step_ok = after == 'P' or (nxt and [_norm_idx(resolved_text(ev, ev.index(nxt[0]), a), i) for a in nxt[0].node.args] == [h, 'P'])
+    if not (not_root and smaller and swap_ok and step_ok):
+      okf = False
+      whatf = 'swap path: not-root=%s child<parent=%s swap(i, parent)=%s continues from parent=%s (args %s, next i = %s)' % (not_root, smaller, swap_ok, bool(step_ok), args, after)
+  ctx.ob('C03.R5', fu, 'FixUp: while i != 1 and heap[i] < heap[i//2]: swap, continue from the parent', okf and n_sw >= 1, whatf or 'no swap path found', why)
+  # ---- FixDown: children bounded by j; the smaller existing child m; swap only if heap[m] < heap[i]; continue from m
   fd = prog.func(H, 'Heap.FixDown')
   h, i, j = fd.params
-  t = U(fd.node).replace(' ', '')
-  L = next((x for x in ('2*%s' % i, '%s*2' % i, '%s<<1' % i) if x in t), None)
-  ok = L is not None
-  if ok:
-    Ls = ['2*%s' % i, '%s*2' % i, '%s<<1' % i]
-    Rs = [x + '+1' for x in Ls]
-    nochild = any(('%s<%s' % (j, x) in t) or ('%s>%s' % (x, j) in t) or ('while%s>=%s:' % (j, x) in t) or ('while%s<=%s:' % (x, j) in t) for x in Ls)
-    only_left = any('%s==%s' % (j, x) in t or '%s==%s' % (x, j) in t for x in Ls)
-    pick = any('%s[%s]<%s[%s]' % (h, l, h, r) in t for l in Ls for r in Rs)
-    # m = left if (only-left or left<right) else right
-    choose = False
-    for n_ in ast.walk(fd.node):
-      if isinstance(n_, ast.IfExp):
-        b, o = U(n_.body).replace(' ', ''), U(n_.orelse).replace(' ', '')
-        if b in Ls and o in Rs:
-          choose = True
-    m = None
-    for st in ast.walk(fd.node):
-      if isinstance(st, ast.Assign) and isinstance(st.value, ast.IfExp):
-        m = U(st.targets[0])
-    cmp_ok = m is not None and ('%s[%s]<%s[%s]' % (h, m, h, i) in t or '%s[%s]>%s[%s]' % (h, i, h, m) in t)
-    swap_ok = m is not None and ('Heap.Swap(%s,%s,%s)' % (h, i, m) in t or 'Heap.Swap(%s,%s,%s)' % (h, m, i) in t)
-    step_ok = m is not None and ('%s=%s' % (i, m) in t or 'Heap.FixDown(%s,%s,%s)' % (h, m, j) in t)
-    ok = nochild and only_left and pick and choose and cmp_ok and swap_ok and step_ok
-    what = 'no-child stop=%s single-child=%s smaller-child=%s choose=%s compare=%s swap=%s step=%s' % (nochild, only_left, pick, choose, cmp_ok, swap_ok, step_ok)
-  else:
-    what = 'child index expression not recognised'
-  ctx.ob('C03.R5', fd, 'FixDown: stop without children, pick the smaller existing child bounded by j, swap if child < node, continue from it', ok, what, why)
+  n_sw = 0
+  okd = True
+  whatd = ''
+  kinds = set()
+  for ev, ex in enum_paths(ctx, fd, body=_lowered_body(fd), unroll=2):
+    sw = [k for k, e in enumerate(ev) if e.kind == 'call' and call_name(e.node) == 'Heap.Swap']
+    if not sw:
+      continue
+    k = sw[0]
+    n_sw += 1
+    closure = _resolved_closure(ev, k, i)
+    def F(text, truth=True):
+      return (text, truth) in closure
+    args = [_norm_idx(resolved_text(ev, k, a), i) for a in ev[k].node.args]
+    m = [a for a in args[1:] if a != i]
+    m = m[0] if len(m) == 1 else None
+    has_child = F('%s<L' % j, False) or F('%s>=L' % j) or F('L<=%s' % j) or F('L>%s' % j, False)
+    only_left = F('%s==L' % j) or F('L==%s' % j)
+    left_smaller = F('%s[L]<%s[R]' % (h, h)) or F('%s[R]>%s[L]' % (h, h))
+    not_left_smaller = F('%s[L]<%s[R]' % (h, h), False) or F('%s[R]>%s[L]' % (h, h), False) or F('%s[L]>=%s[R]' % (h, h)) or F('%s[R]<=%s[L]' % (h, h))
+    two_children = F('%s==L' % j, False) or F('L==%s' % j, False) or F('%s!=L' % j) or F('%s>L' % j) or F('%s>=R' % j)
+    if m == 'L':
+      choice_ok = only_left or left_smaller
+    elif m == 'R':
+      choice_ok = two_children and not_left_smaller
+    else:
+      choice_ok = False
+    child_smaller = m is not None and (F('%s[%s]<%s[%s]' % (h, m, h, i)) or F('%s[%s]>%s[%s]' % (h, i, h, m)))
+    swap_ok = m is not None and args[0] == h and i in args[1:]
+    after = _norm_idx(resolved_text(ev, _after_step(ev, k, i), ast.Name(id=i, ctx=ast.Load())), i)
+    nxt = [e for e in ev[k:] if e.kind == 'call' and call_name(e.node) == 'Heap.FixDown']
+    step_ok = after == m or (nxt and [_norm_idx(resolved_text(ev, ev.index(nxt[0]), a), i) for a in nxt[0].node.args] == [h, m, j])
+    kinds.add(m)
+    if not (has_child and choice_ok and child_smaller and swap_ok and step_ok):
+      okd = False
+      whatd = 'swap path with child %s: children exist=%s choice justified=%s child<node=%s swap(i, child)=%s continues from child=%s' % (m, has_child, choice_ok, child_smaller, swap_ok, bool(step_ok))
+  ctx.ob('C03.R5', fd, 'FixDown: stop without children, pick the smaller existing child bounded by j, swap if child < node, continue from it',
+         okd and kinds == {'L', 'R'}, whatd or 'swap paths found for children %s (need both)' % sorted(k_ for k_ in kinds if k_), why)
 
 
 def lock_context(prog):
